@@ -452,6 +452,17 @@ func (fc *FnCtx) applyContract(con *Contract, c *ssa.CallCommon, args []Val, rt 
 		}
 		fc.vc.assume(fc.cur.reach, t)
 	}
+	// a reader that the callee left marked as failed failed at its source: writes to tee destinations (byte
+	// counters, in-memory buffers) do not fail, so the failure is visible along the whole tee chain
+	if len(fc.readFails) > 0 {
+		fc.vc.trust("a failed read through io.TeeReader is a failed read of its source (tee destinations - counters and buffers - do not fail)")
+		preF := fc.compAt(pre, ghFailed, arraySort("Int"))
+		nowF := fc.getComp(ghFailed, arraySort("Int"))
+		for _, rf := range fc.readFails {
+			fc.vc.assume(fc.cur.reach, mkImplies(mkAnd(mkEq(sel(nowF, rf[0]), "1"), mkNot(mkEq(sel(preF, rf[0]), "1"))), mkEq(rf[1], "1")))
+		}
+		fc.readFails = nil
+	}
 	if con.Trusted {
 		fc.vc.trust("assumed contract: " + con.Name)
 	}
@@ -495,6 +506,11 @@ func (fc *FnCtx) modTargets(items []ast.Expr, se *SpecEnv) ([]modTarget, error) 
 	}
 	for _, it := range items {
 		switch x := it.(type) {
+		case *ast.Ident:
+			if x.Name != "allbig" {
+				return nil, fmt.Errorf("unsupported modifies item %s", exprString(it))
+			}
+			add(bigComp, arraySort("Int"), "") // the mathematical value of every big.Int
 		case *ast.SelectorExpr:
 			base, err := se.expr(x.X)
 			if err != nil {
@@ -695,6 +711,7 @@ func (fc *FnCtx) applyModifies(con *Contract, se *SpecEnv, pre *State) error {
 		fl := fc.vc.fresh("nfail.call", "Int")
 		fc.vc.assume(fc.cur.reach, "(and (<= 0 "+d+") (<= 0 "+fl+") (<= "+fl+" 1))")
 		fc.readBytesF(rd, d, fl)
+		fc.readFails = append(fc.readFails, [2]string{rd, fl})
 	}
 	frontier := fc.alloc()
 	// the callee may allocate
@@ -897,9 +914,12 @@ func (fc *FnCtx) callMods(c *ssa.CallCommon, li *loopInfo, depth int) {
 		con = fc.prog.Cons.FuncType[nt.Obj().Pkg().Path()+"."+nt.Obj().Name()]
 	}
 	if con != nil {
-		if con.ModAll || con.ModHeap {
+		if con.ModAll {
 			li.modAll = true
 			return
+		}
+		if con.ModHeap {
+			li.modHeap = true
 		}
 		for _, comp := range fc.staticModComps(con) {
 			li.mods[comp] = true
@@ -1018,6 +1038,7 @@ func (fc *FnCtx) nameEnvAt(li *loopInfo, phiVals map[*ssa.Phi]Val) map[string]Va
 	for _, p := range fc.fn.Params {
 		if v, ok := fc.env[p]; ok {
 			env[p.Name()] = v
+			env[p.Name()+"0"] = v // entry value of a parameter that the body reassigns (Gobra style: r0)
 		}
 	}
 	for _, dr := range fc.debugRefs {
@@ -1206,13 +1227,20 @@ func (fc *FnCtx) enterLoop(li *loopInfo, in *State) error {
 		fc.vc.warn("%s: loop %d calls code without contract: all heap state havocked at the loop head", fc.fn.Name(), li.ordinal)
 		fc.havocAll()
 	} else {
+		heapAll := li.modHeap || (li.con != nil && li.con.ModHeap)
+		if heapAll {
+			fc.havocHeap()
+		}
 		na := fc.vc.fresh("H.alloc", "Int")
-		fc.vc.assume(st.reach, "(>= "+na+" "+li.inAlloc+")")
+		fc.vc.assume(st.reach, "(>= "+na+" "+fc.alloc()+")")
 		st.heap["alloc"] = na
 		for _, comp := range sortedKeys(li.mods) {
 			srt, ok := st.sorts[comp]
 			if !ok {
 				continue // never accessed anywhere in this function
+			}
+			if heapAll && !(strings.HasPrefix(comp, "GH.") || strings.HasPrefix(comp, "CN.") || strings.HasPrefix(comp, "CL.")) {
+				continue // already havocked as a whole
 			}
 			oldT := fc.getComp(comp, srt)
 			newT := fc.havocComp(comp, srt, na)
@@ -1321,6 +1349,9 @@ func (fc *FnCtx) backEdge(from, head *ssa.BasicBlock) error {
 				}
 			}
 			if li.readsAll && (comp == ghConsumed || comp == ghCount || comp == ghFailed) {
+				continue
+			}
+			if (li.modHeap || (li.con != nil && li.con.ModHeap)) && !(strings.HasPrefix(comp, "GH.") || strings.HasPrefix(comp, "CN.") || strings.HasPrefix(comp, "CL.")) {
 				continue
 			}
 			goal := frameFormula(fc.vc, inT, nowT, li.inAlloc, modTarget{comp: comp, refs: li.modRefs[comp], all: fc.loopModAll(li, comp)})
